@@ -5,6 +5,7 @@ package main
 import (
 	"fmt"
 	"go/ast"
+	"go/constant"
 	"go/token"
 	"go/types"
 	"sort"
@@ -346,10 +347,6 @@ func (c *Ctx) jsonEventsOf(w *jsonWriterFn, n ast.Node, helpers map[types.Object
 					errCall = true
 					return false
 				}
-				if helpers[o] {
-					toks = append(toks, [2]string{"VALUE", ""})
-					return false
-				}
 				if fn, ok := o.(*types.Func); ok && fn.Pkg() == w.fi.Pkg.Types && fn != w.fi.Pkg.TypesInfo.Defs[w.fi.Decl.Name] {
 					for _, a := range x.Args {
 						if tv, ok := info.Types[a]; ok && (isJsoniterStream(tv.Type) || isHTTPResponseWriter(tv.Type)) {
@@ -399,6 +396,30 @@ func (c *Ctx) evalCond(w *jsonWriterFn, e ast.Expr, s *jstate) (val int, refineO
 	info := w.fi.Pkg.TypesInfo
 	e = ast.Unparen(e)
 	switch x := e.(type) {
+	case *ast.Ident:
+		// a tracked boolean flag (false = 0, true = >0)
+		obj := info.Uses[x]
+		if v, tracked := s.flags[obj]; tracked {
+			switch v {
+			case aZero:
+				return 0, nil, 0, 0
+			case aPos:
+				return 1, nil, 0, 0
+			}
+			return -1, obj, aPos, aZero
+		}
+		return -1, nil, 0, 0
+	case *ast.UnaryExpr:
+		if x.Op == token.NOT {
+			v, obj, rt, rf := c.evalCond(w, x.X, s)
+			switch v {
+			case 0:
+				return 1, nil, 0, 0
+			case 1:
+				return 0, nil, 0, 0
+			}
+			return -1, obj, rf, rt
+		}
 	case *ast.BinaryExpr:
 		switch x.Op {
 		case token.LOR:
@@ -490,7 +511,10 @@ func (c *Ctx) trackedCounters(w *jsonWriterFn) map[types.Object]bool {
 					continue
 				}
 				b, ok := obj.Type().Underlying().(*types.Basic)
-				if !ok || b.Info()&types.IsInteger == 0 {
+				if !ok || (b.Info()&types.IsInteger == 0 && b.Info()&types.IsBoolean == 0) {
+					continue
+				}
+				if _, isVar := obj.(*types.Var); !isVar || obj.(*types.Var).IsField() {
 					continue
 				}
 				if len(x.Rhs) != len(x.Lhs) {
@@ -651,7 +675,13 @@ func (c *Ctx) exploreJSON(w *jsonWriterFn, entry *jstate, helpers map[types.Obje
 						}
 						if counters[obj] && i < len(x.Rhs) {
 							if tv, ok := info.Types[x.Rhs[i]]; ok && tv.Value != nil {
-								if x.Tok == token.ADD_ASSIGN {
+								if tv.Value.Kind() == constant.Bool {
+									if constant.BoolVal(tv.Value) {
+										s.flags[obj] = aPos
+									} else {
+										s.flags[obj] = aZero
+									}
+								} else if x.Tok == token.ADD_ASSIGN {
 									if tv.Value.ExactString() != "0" {
 										s.flags[obj] = aPos
 									}
